@@ -888,6 +888,20 @@ class RestAPI(object):
                     resource=arn["resource"] + ":" + name,
                 )
 
+                """
+                A name may only be used for one execution of a State Machine
+                (for 90 days in real AWS StepFunctions): refuse the name of an
+                execution that is already recorded rather than running a second
+                execution that overwrites the first one's record and history.
+                """
+                if "name" in params and self.executions.get(execution_arn):
+                    self.logger.info(
+                        "RestAPI StartExecution: Execution {} already exists".format(
+                            execution_arn
+                        )
+                    )
+                    return aws_error("ExecutionAlreadyExists"), 400
+
                 with opentracing.tracer.start_active_span(
                     operation_name="StartExecution:ExecutionLaunching",
                     child_of=span_context("http_headers", request.headers, self.logger),
